@@ -166,11 +166,15 @@ def extract(path):
                 if "borrowed_ref" in I["for"]:
                     label = "&" + ("mut " if I["for"]["borrowed_ref"]["is_mutable"] else "") + name
                 methods.append(dict(ty=label, trait=trait, method=f["name"], recv=recv, outs=origins,
-                                    args=args, mut_out=mutable_out, out_is_iter=type_name(fn["sig"]["output"]) in ITER_TYPES))
+                                    args=args, mut_out=mutable_out, out_is_iter=type_name(fn["sig"]["output"]) in ITER_TYPES,
+                                    out_ty=type_name(fn["sig"]["output"])))
     iter_kind = dict(item_kind)
     for m in methods:
         if m["trait"] == "Iterator" and m["method"] == "next":
             iter_kind[m["ty"]] = "mutIter" if m["mut_out"] else "sharedIter"
+    # exclusive access in the result: a `&mut` somewhere in the return type, or a value of one of the mutable iterator types
+    for m in methods:
+        m["excl_out"] = bool(m["mut_out"] or iter_kind.get(m.get("out_ty")) == "mutIter")
     return methods, markers, sealed, iter_kind
 
 
@@ -188,9 +192,10 @@ def emit_lean(methods, markers, sealed, iter_kind, path):
     rows = []
     for m in methods:
         base = m["ty"].replace("&mut ", "").replace("&", "")
-        rows.append("  { ty := .%s, trait := %s, method := %s, recv := .%s, outs := [%s], selfSealed := %s }" % (
+        rows.append("  { ty := .%s, trait := %s, method := %s, recv := .%s, outs := [%s], selfSealed := %s, exclOut := %s }" % (
             m["ty"].replace("&mut ", "refMut").replace("&", "ref"), lean_str(m["trait"]), lean_str(m["method"]), m["recv"],
-            ", ".join("." + o for o in m["outs"]), "true" if sealed.get(base, False) else "false"))
+            ", ".join("." + o for o in m["outs"]), "true" if sealed.get(base, False) else "false",
+            "true" if m.get("excl_out") else "false"))
     L.append(",\n".join(rows))
     L.append("]")
     L.append("def markerImpls : List MarkerImpl := [")
